@@ -196,6 +196,21 @@ pub fn migration_case() -> impl Strategy<Value = RcCase> {
         })
 }
 
+/// An owner thread that never registered a merge queue keeps cloning and dropping while another
+/// thread drops / clones its own handle: every count-word access is a switch point.
+pub fn unregistered_owner_case() -> impl Strategy<Value = RcCase> {
+    let churn = prop_oneof![3 => any::<u8>().prop_map(Op::Clone), 3 => any::<u8>().prop_map(Op::Drop), 1 => any::<u8>().prop_map(Op::Read)];
+    let other = prop_oneof![3 => any::<u8>().prop_map(Op::Drop), 2 => any::<u8>().prop_map(Op::Clone), 1 => any::<u8>().prop_map(Op::Read)];
+    (prop::collection::vec(churn, 2..9), prop::collection::vec(other, 1..5), prop::collection::vec(any::<u8>(), 10..120), 1usize..=2).prop_map(|(late, t1, schedule, moves)| {
+        let mut t0 = vec![Op::Clone(0), Op::Clone(0)];
+        for _ in 0..moves {
+            t0.push(Op::Move(0, 1));
+        }
+        t0.extend(late);
+        RcCase { threads: vec![t0, t1], objects: 1, schedule, atomic_ops: false, unregistered: vec![true, false] }
+    })
+}
+
 fn judge(ctx: &Ctx, c: &RcCase, mode: &str, limit: usize, counting: bool) -> PropResult {
     match run_case(mode, limit, c) {
         Err(status) => Err(Failure::new(
@@ -316,6 +331,22 @@ pub fn run(ctx: &Ctx, replay: Option<&str>) -> i32 {
         ok => ok,
     });
     report_failures(ctx, "rc-migration", fails);
+    let fails = run_prop(ctx, "rc-unregistered", unregistered_owner_case, ctx.n(100_000, 2_000_000), |_ws, c, counting| match judge(ctx, c, "run", 0, counting) {
+        Err(f) => {
+            if let Some(k) = ctx.match_known(&f) {
+                if counting {
+                    ctx.note_known_hit(&k.id);
+                }
+                Ok(())
+            } else if ctx.survey_case("rc-unregistered", c, &f) {
+                Ok(())
+            } else {
+                Err(f)
+            }
+        }
+        ok => ok,
+    });
+    report_failures(ctx, "rc-unregistered", fails);
     if !ctx.quick() {
         // bounded-exhaustive part: every schedule of small histories
         let small = ctx.n(0, 3000);
